@@ -310,7 +310,10 @@ def gen_ostress(rng, tier, raw=True):
     OutputChan does, or an InputChan): sections of 3-8 values, the channel fills and drains in the middle of commits"""
     return {"kind": "chan", "nsend": 1, "cap": rng.choice([1, 2, 3]), "read_ms": READ_MS, "write_ms": WRITE_MS, "dial_ms": DIAL_MS,
             "custom": False, "senders": ["out"], "ops": [],
-            "ostress": {"sections": 600 if tier == "quick" else 3000, "seed": rng.randrange(1 << 30), "raw": raw}}
+            "ostress": {"sections": 400 if tier == "quick" else 1500, "seed": rng.randrange(1 << 30), "raw": raw,
+                        # long sections keep the commit loop running long enough for the consumer to get in between two of
+                        # its iterations even on a loaded machine; 8 = the 3-8 values of ordinary sections
+                        "maxlen": rng.choice([8, 40, 60]) if raw else 8}}
 
 
 def oracle_ostress(case, out):
@@ -475,6 +478,16 @@ def oracle(case, ops, out):
     return fails
 
 
+def load_explainable(case, ops, out, fails):
+    """an oracle failure that a deadline missed by a runnable goroutine can explain: something did not return within the
+    per-step deadline, or a TCP Commit took its resend path / stayed pending (commit acknowledgement later than the write
+    time-out - commit_ack_independent_of_receiver says the receiver cannot cause that)"""
+    res = out.get("res") or []
+    if any(r["st"] == "hang" for r in res) or out.get("commit_resend"):
+        return True
+    return case["kind"] == "tcp" and any(op[0] == "c" and r["st"] == "pending" for op, r in zip(ops, res))
+
+
 def classify(case, gs, fs, s, conn_of, switch_ok, final=False):
     """signature of a per-sender sequence mismatch.  The known finding is recognised only by what is specific to it: a
     relaxed sender whose write really timed out, which then really opened a new connection (identity of the sender's
@@ -531,6 +544,8 @@ def to_items(case, ops, out):
         name, st = op[0], r["st"]
         if st in ("skip",):
             continue
+        if name == "waitq":
+            continue
         if st not in ("ok", "abort", "tick", "pending", "full", "timeout"):
             return items, "step %s returned %s" % (op, st)
         if name in ("w", "big"):
@@ -551,7 +566,9 @@ def to_items(case, ops, out):
                 if st == "ok":
                     items.append("IEv (SPreAck %d) ONone" % s); phase[s] = "preok"
                 else:
-                    items.append("IBlockedDrop %d" % s); phase[s] = "idle"
+                    # the acknowledgement did not come within the write time-out: the code may legitimately take this
+                    # time-out at any moment (loaded machine), the model's SDrop is enabled throughout SPreWait
+                    items.append("IEv (SDrop %d) ONone" % s); phase[s] = "idle"
         elif name == "c":
             s = op[1]; kd = kinds[s]
             if kd == "tcp" and phase[s] == "preok":
@@ -586,8 +603,7 @@ def to_items(case, ops, out):
         elif name == "quiesce":
             pass
         elif name == "waitq":
-            if st != "ok":
-                return items, "receive queue never reached %s records (has %s)" % (op[1], r.get("v"))
+            pass   # settling only: never decides anything by itself
     return items, None
 
 
@@ -639,15 +655,6 @@ def run(ctx):
     if rc != 0 or len(byid) != len(plain):
         ctx.breaks.append({"what": "harness c06 failed (rc=%d, %d/%d results)" % (rc, len(byid), len(plain)), "detail": err[-2000:]})
         return
-    # load-dependent outcomes: re-run once, alone
-    def flaky(c, o):
-        return any(r["st"] in ("hang", "timeout") for r in (o.get("res") or [])) or o.get("commit_resend")
-    retry = [c for c in plain if flaky(c, byid[c["id"]])]
-    if retry and len(retry) <= 30:
-        rc2, res2, _ = vlib.run_jsonl("c06", [strip(c) for c in retry], timeout=900)
-        for r in res2:
-            byid[r["id"]] = r
-    ctx.extra["retried_after_load_dependent_outcome"] = len(retry)
     dist = {"tcp": 0, "relaxed": 0, "chan": 0, "custom_in_chan": 0, "steps": 0, "sender_aborts": 0, "precommit_timeouts": 0,
             "write_timeouts": 0, "receiver_aborts": 0, "read_timeouts": 0, "len_calls": 0, "not_run": 0,
             "messages_received": 0}
@@ -688,8 +695,12 @@ def run(ctx):
             # tcpMailboxesRemote.Commit did not get its acknowledgement within the write time-out and went through its
             # resend loop.  The connection did not fail (loopback), so this is inside the statement: the oracle judges it
             dist["commit_resend_seen"] = dist.get("commit_resend_seen", 0) + 1
-        for sig, what in oracle(c, ops, o):
-            ctx.failures.append({"signature": sig, "what": what, "case": dict(strip(c), ops=ops), "obs": o})
+        fl = oracle(c, ops, o)
+        if fl and load_explainable(c, ops, o, fl):
+            c["_deferred"] = fl      # judged after the re-check with every time-out x5
+        else:
+            for sig, what in fl:
+                ctx.failures.append({"signature": sig, "what": what, "case": dict(strip(c), ops=ops), "obs": o})
     ctx.extra["input_distribution"] = dist
     ctx.samples = [{"kind": c["kind"], "nsend": c["nsend"], "cap": c["cap"], "ops": c["_ops"][:18],
                     "impl": [(r["st"], r.get("v")) for r in (c["_out"].get("res") or [])[:18]]}
@@ -719,37 +730,59 @@ def run(ctx):
             return None, probs
         return mm, probs
 
+    suspects = []
     if ctx.coq_ok:
         shard = 300
-        suspects = []
         for s0 in range(0, len(cases), shard):
             part = cases[s0:s0 + shard]
             mm, probs = coq_mismatches(part, str(s0))
             if mm is None:
                 break
             suspects += [part[k] for k in sorted(set(mm) | set(probs))]
-        # the arrival order of two handlers racing for the receive queue depends on scheduling: a schedule on which model
-        # and implementation disagree is run once more, alone, and only a repeated disagreement is reported
-        ctx.extra["correspondence_rechecked"] = len(suspects)
-        if suspects and len(suspects) <= 40 and not ctx.replay and not ctx.failures:
-            rc2, res2, _ = vlib.run_jsonl("c06", [strip(c) for c in suspects], timeout=900)
-            by2 = {r["id"]: r for r in res2}
-            for c in suspects:
-                if c["id"] in by2:
-                    o = by2[c["id"]]
-                    ops, flat_res = expand(c, o)
-                    c["_ops"], c["_out"] = ops, dict(o, res=flat_res)
-                    if True:
-                        for sig, what in oracle(c, ops, c["_out"]):
-                            ctx.failures.append({"signature": sig, "what": what, "case": dict(strip(c), ops=ops), "obs": c["_out"]})
-            mm, probs = coq_mismatches(suspects, "recheck")
-            suspects = [suspects[k] for k in sorted(set(mm or []) | set(probs))]
+    for c in cases:
+        if c.get("_deferred") and c not in suspects:
+            suspects.append(c)
+    # Re-check.  Deadlines (read / write / dial time-outs, the 3 ms settling pause, the wait for a Commit) are the only
+    # thing in a schedule that depends on how loaded the machine is.  A schedule on which model and implementation
+    # disagree, or whose oracle failure can be explained by a deadline missed by a runnable goroutine (hang, commit
+    # acknowledgement later than the write time-out), is run again in a fresh harness process with every time-out x5,
+    # up to three times; it is reported only if it fails every time (a changed implementation differs every time).
+    ctx.extra["rechecked_with_slow_timeouts"] = len(suspects)
+    cleared = 0
+    if suspects and len(suspects) <= 60 and not ctx.replay:
         for c in suspects:
-            items, prob = to_items(c, c["_ops"], c["_out"])
-            ctx.breaks.append({"what": "correspondence C06/Model.v vs the mailbox/channel code differs on a schedule (twice)" +
-                               (": " + prob if prob else ""),
-                               "case": dict(strip(c), ops=c["_ops"]), "impl": c["_out"],
-                               "model": "check_run rejected the implementation's observations"})
+            ok = False
+            for attempt in range(3):
+                rc2, res2, _ = vlib.run_jsonl("c06", [dict(strip(c), slow=5)], timeout=600)
+                if rc2 != 0 or not res2:
+                    continue
+                o = res2[0]
+                ops, flat_res = expand(c, o)
+                c["_ops"], c["_out"] = ops, dict(o, res=flat_res)
+                fl = oracle(c, ops, c["_out"])
+                c["_deferred"] = fl
+                bad_model = False
+                if ctx.coq_ok and not fl:
+                    mm, probs = coq_mismatches([c], "recheck")
+                    bad_model = bool(mm) or bool(probs) or mm is None
+                if not fl and not bad_model:
+                    ok = True
+                    break
+            if ok:
+                cleared += 1; c["_cleared"] = True; c["_deferred"] = None
+    ctx.extra["cleared_by_recheck"] = cleared
+    for c in suspects:
+        if c.get("_cleared"):
+            continue
+        if c.get("_deferred"):
+            for sig, what in c["_deferred"]:
+                ctx.failures.append({"signature": sig, "what": what, "case": dict(strip(c), ops=c["_ops"]), "obs": c["_out"]})
+            continue
+        items, prob = to_items(c, c["_ops"], c["_out"])
+        ctx.breaks.append({"what": "correspondence C06/Model.v vs the mailbox/channel code differs on a schedule (every time, also with all time-outs x5)" +
+                           (": " + prob if prob else ""),
+                           "case": dict(strip(c), ops=c["_ops"]), "impl": c["_out"],
+                           "model": "check_run rejected the implementation's observations"})
     if ctx.replay:
         c = cases[0]
         print("replay: ops", json.dumps(c["_ops"]))
